@@ -235,6 +235,17 @@ int main(int argc, char** argv) {
         SU_vector r3 = a.Evolve(buf.data());
         expect_vec("Evolve(buffer)", r3, R, S);
         expect_same("fast-vs-direct", r3, r, 8 * EPS * (SA > 0 ? SA : 1));
+        { // relational clauses on times OFF the pi/4 lattice (no oracle needed): group law, t=0 identity, scalar products
+          double t1 = 0.37 + 0.011 * p[1], t2 = -1.23 + 0.007 * p[0];
+          SU_vector e1 = a.Evolve(H, t1), e12 = e1.Evolve(H, t2), e3 = a.Evolve(H, t1 + t2), e0 = a.Evolve(H, 0.0);
+          double rt = 64 * EPS * (SA > 0 ? SA : 1) * std::max(1.0, (std::fabs(t1) + std::fabs(t2)) * (hmax - hmin + 1) * 4);
+          expect_same("group-law(generic t)", e12, e3, rt);
+          expect_same("t=0 identity", e0, a, 0);
+          SU_vector w = a.Real() * 0.5 + a, we = w.Evolve(H, t1);
+          double sp0 = a * w, sp1 = e1 * we;
+          if (!(std::fabs(sp0 - sp1) <= 256 * EPS * std::max(1.0, SA * norm1(std::vector<double>(&w[0], &w[0] + w.Size())) * d)))
+            mismatch("scalar-product(generic t)", std::fabs(sp0 - sp1), 0);
+        }
       } else if (op == "rotate") {
         SU_vector r = a.Rotate((unsigned)p[0], (unsigned)p[1], p[2] * M_PI / 4, p[3] * M_PI / 4);
         expect_vec("Rotate(i,j,th,del)", r, R, SA * 4);
